@@ -179,6 +179,7 @@ void of_mod2sparse_clear (of_mod2sparse *r)
 		r->blocks = b->next;
 		free (b);
 	}
+	r->next_free = 0;	/* the free list lived in the blocks just released */
 	OF_EXIT_FUNCTION
 }
 
